@@ -140,8 +140,8 @@ func ratOf(s string) *big.Rat {
 	return r
 }
 
-// numEqual: two numbers are the same value. int vs float: equal when the float is exactly that
-// integer. float vs float: == (so -0 equals 0). big vs big: same rational. big vs float: the
+// numEqual: two numbers are the same value. int vs float: equal when the float is the float64
+// nearest to that integer (both are representations the parsers may legitimately choose). float vs float: == (so -0 equals 0). big vs big: same rational. big vs float: the
 // float is the float64 nearest to the decimal text. big vs int: the text denotes that integer.
 func numEqual(a, b num) bool {
 	if a.class > b.class {
@@ -159,7 +159,7 @@ func numEqual(a, b num) bool {
 		ra, rb := ratOf(a.s), ratOf(b.s)
 		return ra != nil && rb != nil && ra.Cmp(rb) == 0
 	case a.class == 'f' && b.class == 'i': // a=f, b=i after ordering ('f' < 'i')
-		return a.f == float64(b.i) && math.Abs(a.f) < 9.2e18 && int64(a.f) == b.i
+		return a.f == float64(b.i) // the float is the float64 nearest to the integer
 	case a.class == 'b' && b.class == 'f':
 		f, err := strconv.ParseFloat(a.s, 64)
 		return err == nil && f == b.f
